@@ -83,7 +83,7 @@ def _obj(col_list, dt, form):
     import torch
     key = json.dumps([col_list, dt, form])
     if key not in _OBJ:
-        if len(_OBJ) > 400:
+        if len(_OBJ) > 1500:
             _OBJ.clear()
         a = numpy.array(col_list, dtype='float64').T.astype(dt or 'float64').copy()
         _OBJ[key] = torch.from_numpy(a) if form == 'torch' else a
@@ -322,7 +322,8 @@ def hist_key(inp, out):
         return 'out-of-scope: ' + out['why'][:40]
     t = inp['threads']
     return '%s%s/threads%s/%s/poison%s%s%s%s' % (
-        inp.get('api', 'tomtom'), '/mixed-dtype' if inp.get('Qdt') else '', '1' if t == 1 else ('2-4' if t <= 4 else ('5-8' if t <= 8 else '9-16')),
+        inp.get('api', 'tomtom'), ('/mixed-dtype' if inp.get('Qdt') else '') + ('/long-query' if inp.get('long') else '')
+        + ('/batch>128' if inp.get('batch') and len(inp['idxs']) > 128 else ''), '1' if t == 1 else ('2-4' if t <= 4 else ('5-8' if t <= 8 else '9-16')),
         'full' if inp['nn'] is None else 'nn', inp.get('poison', 'A'),
         '' if out.get('hook') else '/HOOK-ABSENT', '/rc' if inp['rc'] else '', '/hash' if inp['ntb'] else '')
 
@@ -486,6 +487,47 @@ def dtype_variants(rng, base, n_extra):
                    nn=None if rng.random() < 0.7 else rng.randint(1, nT), poison='A', api='tomtom')
 
 
+def gen_long_base(rng):
+    """short queries + ONE long query (35-50 columns) under the default n_score_bins = 100 and n_cache = 100:
+    call-global quantities derived from the longest query (array sizes, and whatever a wrapper might derive
+    from them) must not leak into the rows of the short queries"""
+    rs = c14.np_rng(rng)
+    lens = [rng.choice([3, 4, 6]), rng.choice([5, 8, 9]), rng.choice([2, 7, 10]), rng.randint(35, 50)]
+    Q = [c14.pwm(rs, L, rng.choice([0.3, 1.0]), 0) for L in lens]
+    T = [c14.pwm(rs, rng.choice([3, 5, 8, 12]), 0.4, 0) for _ in range(rng.randint(3, 5))]
+    return {'Q': Q, 'T': T, 'nb': 100, 'rc': rng.random() < 0.5, 'ntb': rng.choice([None, 100]), 'long': True}
+
+
+def long_variants(rng, base):
+    nT = len(base['T'])
+    lists = [[0, 3], [3, 0], [1, 3], [3, 2], [0, 1, 2, 3], [3, 2, 1, 0], [2, 3, 2]]
+    for j, idxs in enumerate(lists):
+        yield dict(base, kind='variant', idxs=idxs, threads=1 + j % 2, chunk=0, ncache=100,
+                   nn=None if j % 3 else rng.randint(1, nT), poison='A', api='tomtom')
+    yield dict(base, kind='variant', idxs=[1, 3], threads=2, chunk=0, nn=None, poison='A', api='tomtom',
+               bare=True) if base['rc'] and base['ntb'] == 100 else \
+        dict(base, kind='variant', idxs=[1, 3], threads=2, chunk=0, nn=None, poison='A', api='tomtom', ncache=100)
+
+
+def gen_batch_base(rng):
+    """130-200 short queries against a few targets: a call-size dependent code path (batching, sorting,
+    chunking of the query list) must hand every row back to the query it belongs to"""
+    rs = c14.np_rng(rng)
+    n = rng.randint(130, 200)
+    Q = [c14.pwm(rs, rng.randint(4, 10), 0.4, 0) for _ in range(n)]
+    T = [c14.pwm(rs, rng.choice([4, 6, 9]), 0.4, 0) for _ in range(3)]
+    return {'Q': Q, 'T': T, 'nb': rng.choice([10, 20]), 'rc': rng.random() < 0.5, 'ntb': None, 'batch': True}
+
+
+def batch_variants(rng, base):
+    n = len(base['Q'])
+    perm = list(range(n))
+    rng.shuffle(perm)
+    for idxs, threads, nn in ((list(range(n)), 1, None), (perm, 3, None), (list(range(n)), 16, 2),
+                              (perm[:129], 2, None), (list(range(50)), 4, None)):
+        yield dict(base, kind='variant', idxs=idxs, threads=threads, chunk=0, nn=nn, poison='A', api='tomtom')
+
+
 def variants(rng, base, n_random, threads_all):
     k = len(base['Q'])
     longest = max(range(k), key=lambda i: len(base['Q'][i]))
@@ -530,6 +572,14 @@ def generate(tier, rng):
     quick = tier != 'thorough'
     start_worker()
     n_bases, n_zero, n_oh, n_random = (5, 2, 2, 5) if quick else (16, 5, 4, 20)
+    for _ in range(1 if quick else 3):
+        base = gen_long_base(rng)
+        for v in long_variants(rng, base):
+            yield v
+    for _ in range(1 if quick else 3):
+        base = gen_batch_base(rng)
+        for v in batch_variants(rng, base):
+            yield v
     for _ in range(1 if quick else 6):
         base = gen_dtype_base(rng)
         for v in dtype_variants(rng, base, 4 if quick else 12):
@@ -560,8 +610,12 @@ def generate(tier, rng):
 
 
 def shrink(inp):
-    if len(inp['idxs']) > 1:
-        for i in range(len(inp['idxs'])):
+    n = len(inp['idxs'])
+    if n > 8:                      # long query lists: halves and ends only (every candidate costs a full call)
+        for cand in (inp['idxs'][:n // 2], inp['idxs'][n // 2:], inp['idxs'][:n - max(1, n // 8)], inp['idxs'][1:]):
+            yield dict(inp, idxs=cand)
+    elif n > 1:
+        for i in range(n):
             yield dict(inp, idxs=inp['idxs'][:i] + inp['idxs'][i + 1:])
     if inp['threads'] > 1:
         yield dict(inp, threads=1)
